@@ -2,7 +2,7 @@ package props
 
 import "qeepverif/internal/fw"
 
-// Workload families added in rounds 9-16 (DESIGN.md, section 7), appended to the rule texts that the evidence files report.
+// Workload families added in rounds 9-17 (DESIGN.md, section 7), appended to the rule texts that the evidence files report.
 func init() {
 	for id, more := range map[string]string{
 		"C01": "Rounds 9-15: interleaved construction and re-armed interior tensors; wide fan-in (one Concat over 33..130 interior tensors); selections between neighbouring doubles inside a graph; deep ladders run under a CPU-time bound (20 s for milliseconds of work) instead of a wall clock; operand provenances (13 of 16 leaf constructions go through Reshape / Slice / Concat / Patch / adopted gradients / reducers / MatMul with the identity / Scale(1) / Transpose / a back-propagated graph / a no-op BackPropagate); one long-lived Config object for two creations in three; abandoned consumers.",
@@ -40,6 +40,18 @@ func init() {
 		"C13": "Round 16: gradients of a batch read only after one or two later, unrelated batches were back-propagated.",
 		"C16": "Round 16: a Forward (validation pass) between the back-propagation and the reading of the parameter gradients; one batch row holding an infinite feature (the other rows keep their finite outputs).",
 		"C17": "Round 16: gradients whose entries are 0 or negative (a row's largest element exactly 0); the pointer holds a caller-side struct embedding the tensor.",
+	} {
+		fw.ExtendRule(id, more)
+	}
+	for id, more := range map[string]string{
+		"C01": "Round 17: a reconverging block behind a saturated tanh (|x| = 9..15, weights 2^20..2^23).",
+		"C02": "Round 17: operands of magnitude 1e-12..1e-5 through Log, Pow(-1), Pow(+-0.5) and Div by the operand, under a weighting of the operand's size.",
+		"C05": "Round 17: evaluation loops over short-lived operands with a garbage collection after every reduction; 1 100..2 500 whole numbers of size 2^52 (total beyond 2^63, every partial sum exact); alternating giants +a, -a, ... next to ordinary rows.",
+		"C11": "Round 17: variant confident-wrong (Sigmoid -> BCE, probabilities of the observed class 1e-12..1e-8).",
+		"C12": "Round 17: batch shapes that collide under ad-hoc keys ([11,2] and [1,12], transposed pairs, equal element counts) evaluated one after the other in one process, on one loss object and on fresh ones.",
+		"C13": "Round 17: BCE with labels 1 - 2e-10..1 - 5e-8 on samples predicted with 1 - p = 1e-11..1e-7 (and the mirror image near 0), compared at 1e-9 of the two terms.",
+		"C17": "Round 17: the caller re-armed the gradient tensor and back-propagated a penalty graph over it before the step; its own gradient object and tracking state are unchanged afterwards.",
+		"C20": "Round 17: focused runs (every goroutine does jobs of one kind at once: shared loss object over varying batch shapes, shape operations on one shared result, transposes, private products, gradient reads); the first Gradient() reads of a shared, already back-propagated parameter with three shares.",
 	} {
 		fw.ExtendRule(id, more)
 	}
